@@ -1,0 +1,115 @@
+//go:build verif
+
+package rescache
+
+import (
+	"sort"
+	"time"
+
+	"github.com/resgateio/resgate/server/codec"
+)
+
+// This file is only compiled with the "verif" build tag. It exposes read-only
+// introspection and two test knobs for the verification harness in /verif.
+
+// VerifLCS exposes the collection diff routine.
+func VerifLCS(a, b []codec.Value) []*ResourceEvent {
+	return lcs(a, b)
+}
+
+// VerifSetUnsubscribeDelay overrides the eviction delay. Must be called before Start.
+func (c *Cache) VerifSetUnsubscribeDelay(d time.Duration) {
+	c.unsubscribeDelay = d
+}
+
+// VerifResource is a snapshot of one cached (query) resource.
+type VerifResource struct {
+	Query       string
+	State       int
+	Version     uint
+	Subscribers int
+	Resetting   bool
+	Links       []string
+	JSON        string
+}
+
+// VerifEntry is a snapshot of one cache entry.
+type VerifEntry struct {
+	Name      string
+	Count     int64
+	HasMQSub  bool
+	QueueLen  int
+	Locked    bool
+	Evicting  bool
+	Resources []VerifResource
+}
+
+func verifResource(rs *ResourceSubscription) VerifResource {
+	r := VerifResource{
+		Query:       rs.query,
+		State:       int(rs.state),
+		Version:     rs.version,
+		Subscribers: len(rs.subs),
+		Resetting:   rs.resetting,
+		Links:       append([]string(nil), rs.links...),
+	}
+	switch rs.state {
+	case stateModel:
+		if rs.model != nil {
+			b, _ := rs.model.MarshalJSON()
+			r.JSON = string(b)
+		}
+	case stateCollection:
+		if rs.collection != nil {
+			b, _ := rs.collection.MarshalJSON()
+			r.JSON = string(b)
+		}
+	}
+	return r
+}
+
+// VerifSnapshot returns a snapshot of the cache. It must only be called while
+// the cache is idle (no worker is processing an entry).
+func (c *Cache) VerifSnapshot() []VerifEntry {
+	c.mu.Lock()
+	defer c.mu.Unlock()
+
+	entries := make([]VerifEntry, 0, len(c.eventSubs))
+	for name, e := range c.eventSubs {
+		e.mu.Lock()
+		ve := VerifEntry{
+			Name:     name,
+			Count:    e.count,
+			HasMQSub: e.mqSub != nil,
+			QueueLen: len(e.queue),
+			Locked:   e.locks != nil,
+		}
+		seen := map[*ResourceSubscription]bool{}
+		if e.base != nil {
+			seen[e.base] = true
+			ve.Resources = append(ve.Resources, verifResource(e.base))
+		}
+		for _, rs := range e.queries {
+			if !seen[rs] {
+				seen[rs] = true
+				ve.Resources = append(ve.Resources, verifResource(rs))
+			}
+		}
+		e.mu.Unlock()
+		sort.Slice(ve.Resources, func(i, j int) bool { return ve.Resources[i].Query < ve.Resources[j].Query })
+		entries = append(entries, ve)
+	}
+	sort.Slice(entries, func(i, j int) bool { return entries[i].Name < entries[j].Name })
+	return entries
+}
+
+// VerifEvictionQueueLen returns the number of entries waiting for eviction.
+func (c *Cache) VerifEvictionQueueLen() int {
+	c.mu.Lock()
+	q := c.unsubQueue
+	c.mu.Unlock()
+	if q == nil {
+		return 0
+	}
+	return q.Len()
+}
